@@ -10,7 +10,7 @@ import re
 from . import bootstrap  # noqa: F401
 from . import instrument as ins
 from .core import digest_of, BudgetExceeded
-from .world import dt, td, tick, mag
+from .world import dt, td, tick, mag, make_adapter
 
 import finam as fm
 from finam import TimeComponent, Composition, Info, NoGrid, ComponentStatus, FinamCircularCouplingError
@@ -240,10 +240,12 @@ def run_e2(sc):
             ln = sc["links"][l]
             src = comps[ln["src"][0]].outputs[comps_spec[ln["src"][0]]["outputs"][ln["src"][1]]["name"]]
             dst = comps[ln["dst"][0]].inputs[comps_spec[ln["dst"][0]]["inputs"][ln["dst"][1]]["name"]]
+            cur = src
             if ln.get("scale"):
-                src >> Scale(float(ln["scale"])) >> dst
-            else:
-                src >> dst
+                cur = cur >> Scale(float(ln["scale"]))
+            for a in ln.get("chain", []):
+                cur = cur >> make_adapter(a)     # value preserving at the initial time (both initial pushes carry v0)
+            cur >> dst
 
         # per-call oracle through the life-cycle hook of the recorder ------------------
         orig_ev = rec.ev
